@@ -1242,6 +1242,12 @@ def _literal_value(node: ast.AST) -> bool:
 
             return getattr(builtins, node.func.id)(*args)
 
+    if any(
+        isinstance(child, ast.Call) and child.func in _REBOUND_NAMES for child in ast.walk(node)
+    ):
+        # ast.literal_eval reads set() as the empty set, whatever the file calls set
+        raise ValueError("Cannot find a deterministic value for a call of a name the file binds")
+
     return ast.literal_eval(node)
 
 
